@@ -7,7 +7,9 @@ Decided statically (necessary conditions visible in the code shape; see DESIGN.m
  R3 retry and first call agree on x, y, taus, weights, lambda_, fit_intercept (missing = callee default;
     `self.<attr>` that is a repo-wide constant is folded) and the retry passes normalize_weights=False;
  R4 the module turns cvxpy UserWarnings into errors and nothing in the package relaxes that filter;
- R5 every quantile-regression fit of the conformal model family goes through fit_model.
+ R5 every quantile-regression fit of the conformal model family goes through fit_model;
+ R6 retry-safe use of the accumulating solver (fit() appends one vector per tau, read from the installed source): every
+    fit_model call site hands over a fresh solver used once and a scalar quantile.
 """
 from __future__ import annotations
 
@@ -19,6 +21,78 @@ from ..model import AnalysisError, attr_chain, external_signature
 
 MOD = "elexmodel.models.ConformalElectionModel"
 QRS = "elexsolver.QuantileRegressionSolver.QuantileRegressionSolver"
+
+
+def _solver_accumulates(ctx):
+    """Read from the installed solver: does fit() append one coefficient vector per tau to state kept on the object?"""
+    import importlib.util
+    spec = importlib.util.find_spec("elexsolver.QuantileRegressionSolver")
+    ctx.require(spec is not None and spec.origin, "elexsolver.QuantileRegressionSolver source not found")
+    tree = ast.parse(open(spec.origin, encoding="utf-8").read())
+    for fn in ast.walk(tree):
+        if isinstance(fn, ast.FunctionDef) and fn.name == "fit":
+            for loop in ast.walk(fn):
+                if isinstance(loop, ast.For):
+                    for c in ast.walk(loop):
+                        if isinstance(c, ast.Call) and isinstance(c.func, ast.Attribute) and c.func.attr in ("append", "extend") \
+                                and (attr_chain(c.func.value) or [""])[0] == "self":
+                            return True
+    return False
+
+
+def _retry_safe(ctx, family):
+    """R6: the solver's fit() appends one coefficient vector per tau to the object, so a failed attempt leaves the object clean
+    only if it fails before the first append, i.e. when ONE tau is fitted per call; and predict() multiplies by ALL stored
+    vectors, so a solver object must be fitted exactly once.  Hence at every fit_model call site: the solver argument is a
+    fresh construction used by this call only, and the tau argument is a scalar (not a list / tuple / comprehension)."""
+    acc = _solver_accumulates(ctx)
+    ctx.count("C20.R6.solver_accumulates", int(acc))
+    if not acc:
+        ctx.ob("C20.R6.retry-safe", "solver|fit does not keep per-tau state", True, "elexsolver", "fit() keeps no appended state: retries cannot double up")
+        return False
+    SELF = ("param", "self")
+    b = ctx.builder(inline=lambda *a: False)
+    fm = next((c.lookup("fit_model") for c in family if c.lookup("fit_model") is not None), None)
+    ctx.require(fm is not None, "fit_model not found")
+    bad = False
+    nsites = 0
+    for c in family:
+        for m in c.methods.values():
+            if m.name == "fit_model" or not list(util.method_calls(m.node, "fit_model")):
+                continue
+            sm = b.summarize(m, self_cls=c)
+            calls = []
+            for t in [t_ for _, _, t_, _ in sm.assigns] + [t_ for _, t_, _ in sm.effects]:
+                for x in ir.walk(t):
+                    if x[0] == "call" and x[1] == ("attr", SELF, "fit_model") and x not in calls:
+                        calls.append(x)
+            solvers = {}
+            for x in calls:
+                nsites += 1
+                bound = ir.bind_args(fm, x[2], x[3], method=True) or {}
+                model, tau = bound.get("model"), bound.get("tau")
+                node = b.loc.get(x, (m, m.node))[1]
+                fresh = model is not None and model[0] == "call" and any(k == "#new" for k, _ in model[3])
+                ok_model = fresh and model not in solvers
+                if fresh:
+                    solvers[model] = x
+                ok_tau = tau is not None and tau[0] not in ("list", "tuple", "comp", "loopout", "dict", "set")
+                ok = ok_model and ok_tau
+                bad = bad or not ok
+                why = []
+                if not fresh:
+                    why.append("the solver handed to fit_model is not a fresh construction of this method")
+                elif not ok_model:
+                    why.append("the same solver object is fitted twice: predict() then uses the coefficient vectors of both fits")
+                if not ok_tau:
+                    why.append("several quantiles are fitted in one call: if the solve fails after the first one, the retry appends its "
+                               "vectors behind the partial result and predict() reads the wrong rows")
+                ctx.ob("C20.R6.retry-safe", util.key(m, node), ok, m.where(node),
+                       "one fresh solver, one scalar quantile: a failed attempt leaves the solver empty for the retry" if ok else "; ".join(why))
+    if nsites == 0:
+        ctx.ob("C20.R6.retry-safe", "family|fit_model call sites", False, "ConformalElectionModel family", "no fit_model call site found")
+        return True
+    return bad
 
 
 def _fold(repo, t):
@@ -214,7 +288,9 @@ def check(ctx):
                         direct.append((m, call))
                     elif getattr(callee, "name", None) == "fit_model":
                         via += 1
-    ctx.sites("C20.R5", via + len(direct), 3, "quantile-regression fit sites of the conformal family (median, lower, upper)")
+    r6_bad = _retry_safe(ctx, family)
+    if not r6_bad:
+        ctx.sites("C20.R5", via + len(direct), 3, "quantile-regression fit sites of the conformal family (median, lower, upper)")
     for m, call in direct:
         ctx.ob("C20.R5.direct", util.key(m, call), False, m.where(call),
                "quantile-regression fit bypasses fit_model: a solver failure here is fatal")
